@@ -104,6 +104,9 @@ def prog_constants(p, j=1, max_hist=4, max_cmds=3, unlocked_bug=False, selfdep_p
     d['Cmds'] = sset([rec({'kind': s(c[0]), 'targs': seq([s(t) for t in c[1]]), 'keep': val(bool(c[2])),
                            'j': str(c[3] if len(c) > 3 else 1), 'cwd': s(c[4] if len(c) > 4 else '')})
                       for c in p['cmds']])
+    d['Pairs'] = sset(['<<%s, %s>>' % tuple(rec({'kind': s(c[0]), 'targs': seq([s(t) for t in c[1]]), 'keep': val(bool(c[2])),
+                                                        'j': str(c[3] if len(c) > 3 else 1), 'cwd': s(c[4] if len(c) > 4 else '')})
+                                                   for c in pr) for pr in p.get('pairs', [])])
     d['UserFiles'] = sset([s(x) for x in p.get('user', [])])
     d['RmFiles'] = sset([s(x) for x in p.get('rm', [])])
     d['DoEdits'] = sset([s(x) for x in p.get('doedits', [])])
@@ -116,6 +119,7 @@ def prog_constants(p, j=1, max_hist=4, max_cmds=3, unlocked_bug=False, selfdep_p
     d['MaxCmds'] = str(max_cmds)
     d['UnlockedBug'] = 'TRUE' if unlocked_bug else 'FALSE'
     d['SelfDepPanics'] = 'TRUE' if selfdep_panics else 'FALSE'
+    d['OverrideStale'] = 'TRUE' if p.get('override_stale', False) else 'FALSE'
     d['NullStampPanics'] = 'TRUE' if p.get('null_stamp_panics', False) else 'FALSE'
     d['MaxCrash'] = str(p.get('max_crash', max_crash))
     d['CrashWindow'] = 'TRUE' if p.get('crash_window', crash_window) else 'FALSE'
@@ -365,6 +369,21 @@ def override2():
     }
 
 
+def override3():
+    """a generated target edited by hand twice (and more) with builds and out-of-date queries in between: the record of an
+    overridden file must follow every hand edit (fix 70d1dd5), else its dependents are rebuilt by every run"""
+    return {
+        'name': 'override3',
+        'plain': ['s', 'g', 'h'],
+        'rules': {'g.do': [{'g': [ifchange('s'), out('stdout', 's')]}],
+                  'h.do': [{'h': [ifchange('g'), out('stdout', 'g')]}]},
+        'init': ['s', 'g.do', 'h.do'],
+        'cmds': [('ifchange', ['h'], False), ('ood', [], False)],
+        'user': ['g'], 'rm': [], 'doedits': [],
+        'bounds': (7, 5),
+    }
+
+
 def stamp_toggle():
     """a target that is checksummed, then plain, then checksummed again with the old content"""
     return {
@@ -395,6 +414,39 @@ def stamped_deep():
         'cmds': [('ifchange', ['top'], False), ('ifchange', ['lib'], False)],
         'user': ['s'], 'rm': [], 'doedits': [],
         'bounds': (4, 4),
+    }
+
+
+def stamp_diamond():
+    """a checksummed target under two plain intermediates of one top (a diamond over the checksummed target): both paths are in
+    one dirtiness walk, the uncertain verdict is met twice; s is read by gen (visible edit), u is declared and ignored"""
+    return {
+        'name': 'stamp_diamond',
+        'plain': ['s', 'u', 'gen', 'm1', 'm2', 'top'],
+        'rules': {'gen.do': [{'gen': [ifchange('s', 'u'), out('stdout', 's'), stamp()]}],
+                  'm1.do': [{'m1': [ifchange('gen'), out('stdout', 'gen')]}],
+                  'm2.do': [{'m2': [ifchange('gen'), out('stdout', 'gen')]}],
+                  'top.do': [{'top': [ifchange('m1', 'm2'), out('stdout', 'm1', 'm2')]}]},
+        'init': ['s', 'u', 'gen.do', 'm1.do', 'm2.do', 'top.do'],
+        'cmds': [('ifchange', ['top'], False), ('ifchange', ['m2', 'm1'], False)],
+        'user': ['s', 'u'], 'rm': [], 'doedits': [],
+        'bounds': (5, 3),
+    }
+
+
+def stamp_chain2():
+    """two checksummed targets in a row under a plain top: mid -> low, both redo-stamp; low reads s and ignores u, so an edit of
+    u rebuilds low with the same checksum and nothing above it may run"""
+    return {
+        'name': 'stamp_chain2',
+        'plain': ['s', 'u', 'low', 'mid', 'top'],
+        'rules': {'low.do': [{'low': [ifchange('s', 'u'), out('stdout', 's'), stamp()]}],
+                  'mid.do': [{'mid': [ifchange('low'), out('stdout', 'low'), stamp()]}],
+                  'top.do': [{'top': [ifchange('mid'), out('stdout', 'mid')]}]},
+        'init': ['s', 'u', 'low.do', 'mid.do', 'top.do'],
+        'cmds': [('ifchange', ['top'], False), ('ifchange', ['mid'], False)],
+        'user': ['s', 'u'], 'rm': [], 'doedits': [],
+        'bounds': (5, 3),
     }
 
 
@@ -708,6 +760,47 @@ def parallel_family():
                                   par_unlocked(), par_window()]]
 
 
+# two commands at the same time --------------------------------------------------------------
+def pair_family():
+    """programs whose histories contain `par` steps: two top-level commands (two invocations, each with its own run id and
+    jobserver) started at the same time on one project"""
+    I, R = 'ifchange', 'redo'
+    chain = {'name': 'pair_chain', 'plain': ['s', 'mid', 'top'],
+             'rules': {'mid.do': [{'mid': [ifchange('s'), out('stdout', 's')]}],
+                       'top.do': [{'top': [ifchange('mid'), out('stdout', 'mid')]}]},
+             'init': ['s', 'mid.do', 'top.do'], 'cmds': [(I, ['top'], False)],
+             'pairs': [((I, ['top'], False), (I, ['mid'], False)), ((I, ['top'], False), (I, ['top'], False)),
+                       ((I, ['top'], False), (R, ['mid'], False))],
+             'user': ['s'], 'rm': [], 'doedits': [], 'bounds': (3, 4)}
+    stampp = {'name': 'pair_stamp', 'plain': ['s', 'u', 'mid', 'top'],
+              'rules': {'mid.do': [{'mid': [ifchange('s', 'u'), out('stdout', 's'), stamp()]}],
+                        'top.do': [{'top': [ifchange('mid'), out('stdout', 'mid')]}]},
+              'init': ['s', 'u', 'mid.do', 'top.do'], 'cmds': [(I, ['top'], False)],
+              'pairs': [((I, ['top'], False), (I, ['top'], False)), ((I, ['top'], False), (I, ['mid'], False))],
+              'user': ['s', 'u'], 'rm': [], 'doedits': [], 'bounds': (3, 3)}
+    dia = {'name': 'pair_diamond', 'plain': ['s', 'sh', 'a', 'b'],
+           'rules': {'sh.do': [{'sh': [ifchange('s'), out('stdout', 's')]}],
+                     'a.do': [{'a': [ifchange('sh'), out('stdout', 'sh')]}],
+                     'b.do': [{'b': [ifchange('sh'), out('stdout', 'sh')]}]},
+           'init': ['s', 'sh.do', 'a.do', 'b.do'], 'cmds': [(I, ['a', 'b'], False)],
+           'pairs': [((I, ['a'], False), (I, ['b'], False)), ((I, ['a', 'b'], False), (I, ['b', 'a'], False))],
+           'user': ['s'], 'rm': [], 'doedits': [], 'bounds': (2, 3)}
+    fail = {'name': 'pair_fail', 'plain': ['s', 'bad', 'top', 'ok'],
+            'rules': {'bad.do': [{'bad': [ifchange('s'), exit_(3)]}, {'bad': [ifchange('s'), out('stdout', 's')]}],
+                      'ok.do': [{'ok': [ifchange('s'), out('stdout', 's')]}],
+                      'top.do': [{'top': [ifchange('ok', 'bad'), out('stdout', 'ok', 'bad')]}]},
+            'init': ['s', 'bad.do', 'ok.do', 'top.do'], 'cmds': [(I, ['top'], False)],
+            'pairs': [((I, ['top'], False), (I, ['bad'], False)), ((I, ['top'], False), (I, ['ok', 'bad'], True))],
+            'user': [], 'rm': [], 'doedits': ['bad.do'], 'bounds': (2, 4)}
+    alw = {'name': 'pair_always', 'plain': ['s', 'al', 'top'],
+           'rules': {'al.do': [{'al': [always(), ifchange('s'), out('stdout', 's')]}],
+                     'top.do': [{'top': [ifchange('al'), out('stdout', 'al')]}]},
+           'init': ['s', 'al.do', 'top.do'], 'cmds': [(I, ['top'], False)],
+           'pairs': [((I, ['top'], False), (I, ['top'], False)), ((I, ['top'], False), (I, ['al'], False))],
+           'user': ['s'], 'rm': [], 'doedits': [], 'bounds': (2, 4)}
+    return [complete(dict(p, no_viewer=True)) for p in [chain, stampp, dia, fail, alw]]
+
+
 # dependency cycles ---------------------------------------------------------------------------
 def cycle(name, chain, back, entries, j=1, extra=None):
     """targets chain[0] -> chain[1] -> ... -> chain[-1] -> back; commands enter at `entries`"""
@@ -804,7 +897,7 @@ def crash_family(window=False, stamp_window=False):
     return out_
 
 
-FAMILY_DEEP = [subdirs_cwd, alias_prog, fail_kinds, ifcreate_link, symlink_prog, symlink_stamped, nodir_prog, always2, fail_diamond, override2, stamp_toggle, stamped_deep, ifcreate_deep, do_recreate, subdirs, fan_shared, fail_memo]
+FAMILY_DEEP = [stamp_diamond, stamp_chain2, override3, subdirs_cwd, alias_prog, fail_kinds, ifcreate_link, symlink_prog, symlink_stamped, nodir_prog, always2, fail_diamond, override2, stamp_toggle, stamped_deep, ifcreate_deep, do_recreate, subdirs, fan_shared, fail_memo]
 
 
 def deep_programs():
